@@ -23,7 +23,7 @@ import numpy as np
 
 PROP = "C01"
 DRIVER = None
-LEAN_MODULES = ["MesaModel.Props.C01", "MesaModel.Props.C01Legacy", "MesaModel.Props.C01Cells"]
+LEAN_MODULES = ["MesaModel.Props.C01", "MesaModel.Props.C01Legacy", "MesaModel.Props.C01Cells", "MesaModel.Props.C01Agents"]
 THEOREMS = ["Mesa.Rng." + t for t in (
     "C01_no_global_sites", "C01_sites_nonempty", "C01_sorted_pick_hashorder_independent",
     "C01_shuffle_perm", "C01_shuffle_deterministic", "C01_reseed_replays", "C01_derived_carry_generator")] + [
@@ -34,7 +34,10 @@ THEOREMS = ["Mesa.Rng." + t for t in (
         "C01_legacy_hex_neighborhood_set_order_independent")] + [
     # of Props/C01Cells.lean only the theorem with content beyond its definitions is claimed here (second review: the other two
     # are an induction over a hand-written table and a congruence of equality; they stay compiled and audited under C06)
-    "Mesa.Cells." + t for t in ("C01_cells_random_empty_determined",)]
+    "Mesa.Cells." + t for t in ("C01_cells_random_empty_determined",)] + [
+    # shuffle / shuffle_do draw counts and determinism, generator handles of program-made sets, on the AgentSet / world models
+    "Mesa.ASet.C01_agents_shuffle_draws", "Mesa.ASet.C01_agents_shuffle_function_of_members_and_script",
+    "Mesa.ASet.C01_agents_history_draws", "Mesa.Agents.C01_agents_shuffle_do_draws", "Mesa.Agents.C01_agents_sets_keep_their_generator"]
 COUNTS = {"quick": 24, "thorough": 240}
 WATCHDOG = 400
 HEADER_LINES = 0
